@@ -25,10 +25,15 @@ def env_for(idx, seed, side=False):
         env["HWLOC_LIBXML"] = "0"      # odd runs: nolibxml backend for export and import
     else:
         env.pop("HWLOC_LIBXML", None)
+    # GROUP flags are generated in every run.  Main runs: default accuracy (HWLOC_GROUPING_ACCURACY unset), the Groups inserted by
+    # the commit are PREDICTED by the model (Hw.Grouping + the insertion model).  Side runs: non-default accuracies (float
+    # comparisons, not modelled), judged for crashes / sanitizer reports only, as before.
+    env["VERIF_GROUP"] = "1"
+    for k in ("HWLOC_GROUPING", "HWLOC_GROUPING_ACCURACY", "HWLOC_GROUPING_VERBOSE", "VERIF_GROUP_CRASHONLY"):
+        env.pop(k, None)
     if side:
-        env["VERIF_GROUP"] = "1"
-    else:
-        env.pop("VERIF_GROUP", None)
+        env["VERIF_GROUP_CRASHONLY"] = "1"
+        env["HWLOC_GROUPING_ACCURACY"] = ("try", "0.3", "0.05", "try")[idx % 4]
     return env
 
 
@@ -91,10 +96,12 @@ def shrink(binp, workdir, ops, env):
 def replay_text(binp, workdir, ops, env):
     rc, san, eff, cl, ml = _replay(binp, os.path.join(workdir, "shrink"), ops, env)
     out = ["# engine distances: op [| annotation] || hwloc (C) || Lean model   -- replay: harness distances --replay <ops> <out> <eff-ops>",
-           "# env: " + " ".join("%s=%s" % (k, env[k]) for k in ("HWLOC_LIBXML", "VERIF_GROUP") if k in env)]
+           "# env: " + " ".join("%s=%s" % (k, env[k]) for k in ("HWLOC_LIBXML", "VERIF_GROUP", "VERIF_GROUP_CRASHONLY", "HWLOC_GROUPING_ACCURACY") if k in env)]
     for i, o in enumerate(eff if eff else ops):
         ci = cl[i] if i < len(cl) else "<none>"
         mi = ml[i] if i < len(ml) else "<none>"
+        if " ## P 1 ## " in o:      # GROUP commit: the two topology dumps of the annotation are recomputed by every replay
+            o = o.split(" ## P 1 ## ")[0] + " ## P 1 ## <dump before> ## <dump after>"
         out.append("%s || %s || %s%s" % (o, ci, mi, "" if ci == mi else "   <== DIFFERS"))
     if rc != 0:
         out.append("# harness exit %d:\n# %s" % (rc, san.replace("\n", "\n# ")))
@@ -157,16 +164,27 @@ def run_engine(tier, seed, corpus_dir=None):
                 txt += "# original run output:\n# " + r["san"].replace("\n", "\n# ") + "\n"
             problems.append({"what": what, "seed": r["seed"], "replay": txt, "min_ops": small})
             break  # one minimised replay is enough
-    # side stream (GROUP flags at commit): no verdict, reported only
+    # side stream (GROUP flags at commit with non-default accuracies): harness aborts / sanitizer reports only
     side_info = {"runs": len(side), "ops": sum(r["nops"] for r in side), "diffs": sum(r["ndiff"] for r in side),
                  "aborts": sum(1 for r in side if r["rc"] != 0),
                  "first": ["%s || %s || %s" % f[1:] for r in side for f in r["firsts"][:1]][:2]}
+    for r in side:
+        if r["rc"] != 0 and not problems:
+            problems.append({"what": "sanitizer/abort in harness (crash-only GROUP stream, %s)" % env_for(r["idx"], r["seed"], True).get("HWLOC_GROUPING_ACCURACY"),
+                             "seed": r["seed"], "replay": "# VERIF_SEED=%d VERIF_GROUP=1 VERIF_GROUP_CRASHONLY=1 HWLOC_GROUPING_ACCURACY=%s distances %d ops c.out stats\n# %s\n"
+                             % (r["seed"], env_for(r["idx"], r["seed"], True).get("HWLOC_GROUPING_ACCURACY"), r["nops"], r["san"].replace("\n", "\n# "))})
     sample = results[0]["sample"] if results else []
     shutil.rmtree(workdir, ignore_errors=True)
     return {"evaluations": total, "distinct_nontrivial": len(distinct), "benign_repr_diffs": 0,
             "distribution": stats, "buckets_hit": len(stats), "problems": problems, "samples": sample,
             "side_stream_group_flags": side_info, "corpus_ops": ncorpus,
             "excluded_input_classes": {},
+            "group_commits_predicted": {k: stats.get(k, 0) for k in ("commit_group_created", "commit_group_none", "commit_group_nested_rounds", "commit_block")},
+            "candidate_findings": ["hwloc__find_groups_by_min_distance is not the transitive closure its comment promises: newfirstfound is the "
+                                   "first object found in a pass, not the smallest, so a member found later with a smaller index is never "
+                                   "rescanned (corpus/distances/group-path4-not-transitive.ops: path 0-2-1-3 of minimal cells yields the group "
+                                   "{0,1,2}); outside the property (the Groups are consistent with C01), the model follows the code "
+                                   "(C13_group_closure_not_transitive_witness)"],
             "rule": "random API histories (120 ops per synthetic topology, 6 topologies, random NVSwitch marking; pools of 4 add "
                     "handles and 8 returned structures); a case is one op applied to the current state; every returned or "
                     "transformed structure is compared in full (name, kind, nbobjs, objects as type:gp_index, values); "
